@@ -266,8 +266,46 @@ class SubGetItem(Contract):
         return out
 
 
+class Align(Contract):
+    """_FunctionArrayOps.align(array, in_indices, out_indices): the transposition makes axis k of the result the axis that
+    carried index out_indices[k] in the input, for every permutation of up to 4 distinct indices."""
+    prop = PROP
+    fn = 'expression_v2:_FunctionArrayOps.align'
+    bounded = 'up to 4 indices, every permutation; index characters symbolic and pairwise distinct'
+
+    def __init__(self, perm):
+        self.perm = perm
+        self.label = 'out=in[%s]' % ','.join(map(str, perm))
+
+    def setup(self, cx):
+        n = len(self.perm)
+        chars = [STerm(cx.const('idx%d' % k, CH), (str,), 'idx%d' % k) for k in range(n)]
+        if n > 1:
+            cx.assume(z3.Distinct(*[c.term for c in chars]))
+        S = State(chars=chars, axes=None)
+
+        def transpose(ctx, s, arr, axes):
+            S.axes = axes
+            return SOpaque('transposed')
+        me = SObj('_FunctionArrayOps', methods={'transpose': transpose})
+        S.args = (me, SOpaque('array'), IdxStr(chars), IdxStr([chars[p] for p in self.perm]))
+        return S
+
+    def ensures(self, cx, S, result):
+        axes = S.axes
+        if not (isinstance(axes, tuple) and len(axes) == len(self.perm) and all(isinstance(a, int) for a in axes)):
+            raise Unsupported('transpose called with %r' % (axes,))
+        # numpy.transpose(a, axes): axis k of the result is axis axes[k] of the input; it must carry out_indices[k]
+        return [('result-axis-k-carries-out_indices[k]', z3.BoolVal(all(0 <= a < len(axes) for a in axes) and all(axes[k] == self.perm[k] for k in range(len(axes)))))]
+
+    def replay(self, ob):
+        import os
+        here = os.path.dirname(os.path.dirname(os.path.abspath(__file__)))
+        return "import sys; sys.path.insert(0, %r)\nfrom native import c19\nc19.align()\n" % here
+
+
 def contracts():
-    cs = []
+    cs = [Align(p) for n in range(0, 5) for p in itertools.permutations(range(n))]
     for n in range(0, 5):
         for ns in (0, 1, 2):
             if n == 4 and ns == 2:
